@@ -43,6 +43,9 @@ func findField(d *TypeDesc, num uint64) *FieldDesc {
 	return nil
 }
 
+// StripPtr returns the descriptor behind all pointers of d.
+func StripPtr(d *TypeDesc) *TypeDesc { return stripPtr(d) }
+
 func stripPtr(d *TypeDesc) *TypeDesc {
 	for d.K == KPtr {
 		d = d.Elem
@@ -137,17 +140,14 @@ func ParseMessage(d *TypeDesc, b []byte, base int) ([]Node, error) {
 				sub = &TypeDesc{K: KStruct, Fields: []FieldDesc{{Num: 1, T: *ft.Key}, {Num: 2, T: *ft.Elem}}}
 			} else {
 				nd.Label, sub = labelOf(ft, f.Wire)
-				if bt := stripPtr(ft); bt.K == KStruct || bt.K == KNamed && Named(bt.Name).Under.K == KStruct {
+				// implementers write their own length prefix whatever their kind
+				// (644a5bf): only plain structs carry the "embedded" flag
+				if bt := stripPtr(ft); bt.K == KStruct || bt.K == KNamed && Named(bt.Name).Impl == "" && Named(bt.Name).Under.K == KStruct {
 					nd.Embedded = true
 				}
 				if bt := stripPtr(ft); bt.Impl() != "" && nd.Wire == 2 {
 					nd.Impl = true
 					nd.ImplLen = nd.End - nd.PayStart
-					if Named(bt.Name).Under.K == KStruct { // struct-kinded implementers are length-prefixed twice
-						if v, n := protowire.ConsumeBytes(b[nd.PayStart-base : nd.End-base]); n >= 0 {
-							nd.ImplLen = len(v)
-						}
-					}
 				}
 				nd.Label = pre + nd.Label
 			}
